@@ -136,7 +136,8 @@ def check(case, st):
             st.skipped["infeasible history"] += 1
             continue
         Fstar = float(ftab[feas].min())
-        st.nontrivial += 1 if (~feas).any() else 0
+        if extra == 1 and (~feas).any():
+            st.nontrivial += 1
         nbv = H.num_binary_variables
         mp = H.mapping
         inv = {i: l for l, i in mp.items()}
